@@ -39,18 +39,31 @@ def execute(case, cid):
 
     log = case['log']
     pts_l = list(case['pts'])
-    xs = [float(Fraction(s)) for s in case['xs']]
+    xs = [] if case['kind'] == 'phi' else [float(Fraction(s)) for s in case['xs']]
     x_of = dict(zip(pts_l, xs))
-    n = len(case['coef'])
     sh = tuple(case['sh'])
     mask = np.array(case['mask'], dtype=bool).reshape(sh)
     ids = list(case['ids']) or None
     calls = []
     returned = {}
+    seen_x = {}
+    grid1 = {}
 
     def model(params, ns, pts, **extra):
         calls.append({'pts': int(pts), 'params': rats(list(params)), 'ns': [int(v) for v in ns],
                       'extra': [[k, rat(extra[k])] for k in sorted(extra)]})
+        if case['kind'] == 'phi':
+            # a real dadi model: equilibrium phi on the default grid, sampled by Spectrum.from_phi,
+            # which records extrap_x (the first interior grid point) on its result
+            xx = Numerics.default_grid(pts)
+            phi = dadi.PhiManip.phi_1D(xx, nu=params[0])
+            if len(sh) == 2:
+                phi = dadi.PhiManip.phi_1D_to_2D(xx, phi)
+            fs = dadi.Spectrum.from_phi(phi, list(ns), (xx,) * len(sh), pop_ids=ids)
+            returned[pts] = rats(np.asarray(fs.data, dtype=float).ravel())
+            seen_x[pts] = rat(fs.extrap_x)
+            grid1[pts] = rat(xx[1])
+            return fs
         x = x_of[pts]
         vals = []
         for c in case['coef']:
@@ -107,6 +120,9 @@ def execute(case, cid):
             out = {'v': flat(res), 'm': [bool(b) for b in np.ma.getmaskarray(res).ravel()],
                    'ids': [str(s) for s in (getattr(res, 'pop_ids', None) or [])], 'calls': list(calls)}
     inp['ys'] = [returned.get(p, []) for p in pts_l]
+    if case['kind'] == 'phi':
+        inp['xs'] = [seen_x.get(p, 'nan') for p in pts_l]          # what the results carried as .extrap_x
+        inp['grid1'] = [grid1.get(p, 'nan') for p in pts_l]        # first interior point of the grid used
     tab = {}
     if 'v' in out and case['perm']:
         try:
@@ -277,6 +293,18 @@ def cases(ctx):
         c['kw'] = rng.random() < 0.3
         c['xsrc'] = rng.choice(['attr', 'attr', 'explicit'])
         out.append(c)
+    # 4. real dadi models (phi_1D -> Spectrum.from_phi): x comes from the results' extrap_x = grid[1]
+    for t in range(8 if ctx.quick else 40):
+        k = 1 + t % 6
+        two = t % 4 == 3
+        sh = [5, 4] if two else [rng.randint(4, 9)]
+        pts_l = rng.sample(range(12, 40) if two else range(20, 90), k)
+        n = int(np.prod(sh))
+        c = {'log': t % 2 == 0, 'kw': t % 3 == 0, 'scalar': False, 'noex': False, 'xsrc': 'attr', 'fm': 10, 'pts': pts_l, 'xs': [],
+             'kind': 'phi', 'sh': sh, 'mask': [j in (0, n - 1) for j in range(n)], 'ids': (['A', 'B b'][:len(sh)] if t % 2 else []),
+             'coef': [], 'perm': [j + 1 for j in rng.sample(range(k), k)], 'params': rats([rng.uniform(0.5, 2.0)]), 'ns': [v - 1 for v in sh],
+             'extra': [], 'tag': 'from_phi', 'use_logfunc': t % 2 == 0}
+        out.append(c)
     return out
 
 
@@ -342,7 +370,7 @@ def run(ctx):
         nontrivial_of=nontrivial, mutator=mutate,
         rule='every path of the dispatch graph (linear/log x positional/keyword x scalar, 0..7 grids x no_extrap x x-source x array/Spectrum); '
              'all k! orderings of the grid list for k <= 4 (quick) / k <= 6 (thorough) plus sampled ones, each repeated under a second permutation; '
-             'random polynomial models (degree < k, = k, mixed, fallback entries with fail_mag 1,2,3,10). Non-trivial = k >= 2 and a value returned; '
+             'random polynomial models (degree < k, = k, mixed, fallback entries with fail_mag 1,2,3,10); real phi_1D/from_phi models (x = extrap_x = grid[1]). Non-trivial = k >= 2 and a value returned; '
              'distinct by (mode, k, result type, x source, keyword, ordering class, model class, fail_mag, shape)',
         assumptions=['BigInteger rational arithmetic of the Rat override (self-tested against the TLA+ definitions)',
                      'model values are the correctly rounded floats of an exact rational polynomial; the float result is accepted within '
